@@ -79,6 +79,14 @@ CLAIMED["C12"] = ("4/C12", "LocalDate ordering (all operators, compare_to, min/m
                   "(solver) plus a source-level premise that __hash__ reads only fields __eq__ compares. Duration/Instant/Offset/LocalTime orderings "
                   "are lemmas of C03/C10, _YearMonthDay ordering and packing of C01; operand immutability is asserted inside the C03/C09/C10/C11 harnesses.",
                   "symbolic hashing is not executed (hash() realises); Interval/DateInterval equality is in C18")
+CLAIMED["C04"] = ("4/C04", "Precalculated zones: binary search over a symbolic 3-period list with/without a stub tail (containment, clamping of the "
+                  "first tail interval, period validation) and over the concrete period tables of real zones for every instant before the tail "
+                  "(8 seeded zones in quick, all ids in thorough; abutting / maximal / wall = standard + savings / min-max facts per stored period "
+                  "checked concretely); recurring tail: the alternating map over abstract recurrences, one infinite recurrence over an abstract "
+                  "yearly rule in UTC/wall/standard frames for every instant of 4-year windows at both ends of time and around 2000; fixed zones; "
+                  "ZoneInterval construction.",
+                  "a single-query walk of a real recurring tail to year 9999 is out of reach (DESIGN 3.6b): the tail is claimed through altmap + "
+                  "recurrence + the yearly-rule lemmas of C06; yearly-rule evaluation itself (_ZoneYearOffset) is under C06")
 NOT_BUILT = {}
 
 NA_REASON = "check not built yet in this round (design in DESIGN.md section 4); no claim is made"
